@@ -44,7 +44,7 @@ const (
 )
 
 type c40Case struct {
-	Src  string   `json:"src"`  // the program; $f0 $f1 $missing $nodir are paths in a fresh directory
+	Src  string   `json:"src"`  // the program; $f0 $f1 $fin $missing $nodir are paths in a fresh directory
 	Feat []string `json:"feat"` // features the generator put in (for the histogram only)
 }
 
@@ -198,8 +198,10 @@ var c40Bundles = []c40Bundle{
 	{text: "5> $f1 >&5"},
 	{text: "> $f0 > $f1"},      // the first file is displaced and must be closed
 	{text: "> $f0 3> $f1 >&3"}, // displaced, and a file reachable through two fds
-	{text: "< $f0", firstOnly: true},
-	{text: "< $f1 > $f0", firstOnly: true},
+	// input comes from $fin, which no program writes: a stage that reads a file
+	// while its own body appends to that file would legitimately never end
+	{text: "< $fin", firstOnly: true},
+	{text: "< $fin > $f0", firstOnly: true},
 	{text: "0<&-", firstOnly: true},
 	{text: "2>&1 > $f0", lastOnly: true},
 	{text: "3>&1 >&- >&3", lastOnly: true},
@@ -406,11 +408,13 @@ func c40Check(c c40Case) error {
 	defer os.RemoveAll(dir)
 	os.WriteFile(filepath.Join(dir, "f0"), []byte("line1\nline2\nline3\n"), 0o644)
 	os.WriteFile(filepath.Join(dir, "f1"), []byte("x"), 0o644)
+	os.WriteFile(filepath.Join(dir, "fin"), []byte("in1\nin2\nin3\n"), 0o644)
 	newGlobal := func() *eval.Ns {
 		return eval.BuildNs().
 			AddVar("big", vars.NewReadOnly(c40Big)).
 			AddVar("f0", vars.NewReadOnly(filepath.Join(dir, "f0"))).
 			AddVar("f1", vars.NewReadOnly(filepath.Join(dir, "f1"))).
+			AddVar("fin", vars.NewReadOnly(filepath.Join(dir, "fin"))).
 			AddVar("missing", vars.NewReadOnly(filepath.Join(dir, "missing"))).
 			AddVar("nodir", vars.NewReadOnly(filepath.Join(dir, "nodir"))).Ns()
 	}
